@@ -587,6 +587,10 @@ def vb_scale(v_b, p_a_r, doc_width, doc_height):
         height = float(vb_array[3]) # viewbox height
     except ValueError:
         return 1, 1, 0, 0 # invalid viewbox; return default transform
+    # float() also reads 'inf', 'nan', '1_000' and non-ASCII digits; none of these is an SVG number
+    if not all(isfinite(v) for v in (min_x, min_y, width, height)) or any('_' in t or \
+            any(c.isdecimal() and c not in '0123456789' for c in t) for t in vb_array[:4]):
+        return 1, 1, 0, 0 # invalid viewbox; return default transform
 
     if width <= 0 or height <= 0:
         return 1, 1, 0, 0 # invalid viewbox; return default transform
